@@ -440,6 +440,11 @@ def assemble(template_path, repo=None, learn=False, modes=None):
         else:
             rec['changed_since_baseline'] = raw != b_raw
             c_lines, applied = prepare(raw, r, rnotes, strict=False)
+            # size of the change: baseline lines with no exact counterpart + current lines with no exact counterpart
+            mm = align(b_lines, c_lines)
+            exact = sum(1 for i, j in enumerate(mm) if j is not None and b_lines[i].strip() == c_lines[j].strip())
+            rec['change_size'] = (len([l for l in b_lines if l.strip()]) - sum(1 for i, j in enumerate(mm) if j is not None and b_lines[i].strip() and b_lines[i].strip() == c_lines[j].strip())) \
+                + (len([l for l in c_lines if l.strip()]) - sum(1 for i, j in enumerate(mm) if j is not None and c_lines[j].strip() and b_lines[i].strip() == c_lines[j].strip()))
             res = transplant(b_lines, r.lines, c_lines, where, mode)
             for line, real in res:
                 out_lines.append(line); linemap.append((r.label, real, r.file if real else None))
